@@ -51,13 +51,13 @@ func (d *dg) fs(x []float64) {
 		d.s("nil")
 	}
 	d.i(len(x))
-	for _, v := range x {
+	for _, v := range x[:cap(x)] { // the spare capacity belongs to the caller too: an append into it is a modification
 		d.f(v)
 	}
 }
 func (d *dg) is(x []int) {
 	d.i(len(x))
-	for _, v := range x {
+	for _, v := range x[:cap(x)] {
 		d.i(v)
 	}
 }
@@ -164,7 +164,12 @@ func mkSet(rng *rand.Rand) *pSet {
 	p := &pSet{}
 	n := 6 + rng.Intn(20)
 	tied := func(n int, span int, off float64) []float64 {
-		x := make([]float64, n)
+		// a sub-slice with spare capacity: the tail holds sentinels that no callee may touch
+		back := make([]float64, 2*n+8)
+		for i := range back {
+			back[i] = -7777
+		}
+		x := back[:n]
 		for i := range x {
 			x[i] = off + float64(rng.Intn(span)) + []float64{0, 0, 0.5}[rng.Intn(3)]
 		}
@@ -190,6 +195,19 @@ func mkSet(rng *rand.Rand) *pSet {
 			p.g[i] = append(p.g[i], rng.Intn(nn))
 		}
 	}
+	// CSR layout: every adjacency list is a sub-slice of one backing array, so each has the following lists as spare capacity
+	tot := 0
+	for i := range p.g {
+		tot += len(p.g[i])
+	}
+	back := make([]int, 0, tot)
+	csr := make(graph.IntGraph, nn)
+	for i := range p.g {
+		st := len(back)
+		back = append(back, p.g[i]...)
+		csr[i] = back[st:len(back)]
+	}
+	p.g = csr
 	p.g2 = make(graph.IntGraph, nn)
 	for i := range p.g {
 		p.g2[i] = append([]int{}, p.g[i]...)
@@ -340,6 +358,7 @@ func purityEntries() []pEntry {
 		{"vec.Concat", []string{"xs1", "xs2"}, "", false, func(p *pSet) any { return vec.Concat(p.xs1, p.xs2) }},
 		{"vec.Linspace", nil, "", false, func(p *pSet) any { return vec.Linspace(-1, 2, 7) }},
 		{"graph.Equal", []string{"g", "g2"}, "", false, func(p *pSet) any { return graph.Equal(p.g, p.g2) }},
+		{"graph.Equal/rev", []string{"g2", "g"}, "", false, func(p *pSet) any { return graph.Equal(p.g2, p.g) }},
 		{"graph.MakeBiGraph", []string{"g"}, "", false, func(p *pSet) any {
 			b := graph.MakeBiGraph(p.g)
 			var in [][]int
